@@ -750,4 +750,40 @@ theorem bmapAll_wf (s : S) (blks : List Nat) (bns : List Nat) (h : WFB s blks)
     simp only [bmapAll]
     exact ih _ _ (bmap_ok s blks bn h (hb bn (by simp))).wf (fun b hm => hb b (List.mem_cons_of_mem _ hm))
 
+
+/-! ### file blocks and their positions -/
+
+theorem posOf_valid (bn : Nat) (hbn : bn < NDIRECT + NBLKBLK + NBLKBLK * NBLKBLK) :
+    (posOf bn).valid ∧ (posOf bn).isData := by
+  unfold posOf
+  by_cases h1 : bn < NDIRECT
+  · simp only [h1, if_true]; exact ⟨h1, trivial⟩
+  · by_cases h2 : bn - NDIRECT < NBLKBLK
+    · simp only [h1, h2, if_true, if_false]; exact ⟨h2, trivial⟩
+    · simp only [h1, h2, if_false]
+      refine ⟨⟨?_, ?_⟩, trivial⟩
+      · simp only [NDIRECT, NBLKBLK] at *; omega
+      · simp only [NBLKBLK]; omega
+
+/-- the file block a data position serves -/
+def bnOf : Pos → Nat
+  | .dir i => i
+  | .ileaf i => NDIRECT + i
+  | .dleaf j i => NDIRECT + NBLKBLK + (NBLKBLK * j + i)
+  | _ => 0
+
+theorem bnOf_posOf (bn : Nat) : bnOf (posOf bn) = bn := by
+  unfold posOf
+  by_cases h1 : bn < NDIRECT
+  · simp only [h1, if_true, bnOf]
+  · by_cases h2 : bn - NDIRECT < NBLKBLK
+    · simp only [h1, h2, if_true, if_false, bnOf]; omega
+    · simp only [h1, h2, if_false, bnOf]
+      have := Nat.div_add_mod (bn - NDIRECT - NBLKBLK) NBLKBLK
+      omega
+
+theorem posOf_inj (a b : Nat) (h : posOf a = posOf b) : a = b := by
+  rw [← bnOf_posOf a, ← bnOf_posOf b, h]
+
+
 end GoNfsd.Model.BlockMap
